@@ -43,7 +43,7 @@ def _job(args):
     return M.run_history(hid, h, sub_universe(_G["U"], sel), os.path.join(work, "img"), len(sel), logo, npre, alias)
 
 
-def explore(work, name, depth, nimg, ops, sim=None, nslides=2, args=("none", "w", "h", "both"), vias=("stream", "path", "usedstream"), logo=0, npre=0, alias=False):
+def explore(work, name, depth, nimg, ops, sim=None, nslides=2, args=("none", "w", "h", "both"), vias=("stream", "path", "usedstream", "ingroup"), logo=0, npre=0, alias=False):
     cfg = os.path.join(work, "MC_Media_%s.cfg" % name)
     q = lambda xs: ",".join('"%s"' % o for o in xs)  # noqa: E731
     body = (CFG % (depth, nimg, q(ops), q(args), q(vias), logo, npre, "TRUE" if alias else "FALSE")).replace("NSLIDES = 2", "NSLIDES = %d" % nslides)
